@@ -40,6 +40,20 @@ class ContinueEx(Exception):
     pass
 
 
+class UnknownStr:
+    """a string whose content the engine does not track (an f-string over symbolic / object values): fine as an error message, but any
+    comparison, hashing as a key or attribute lookup with it is outside the subset - never silently equal or unequal to anything"""
+
+    def __vf_compare__(self, I, op, a, b):
+        raise Unsupported("comparison of a string of unknown content")
+
+    def __hash__(self):
+        raise Unsupported("a string of unknown content used as a key")
+
+    def __repr__(self):
+        return "<unknown str>"
+
+
 class RaiseEx(Exception):
     """A Python exception raised by the code under verification."""
 
@@ -750,7 +764,23 @@ class Interp:
         return self.lookup_name(e.id)
 
     def eval_JoinedStr(self, e):
-        return "<message>"
+        """f-strings: formatted for real when every part is a concrete Python scalar (they may be used as attribute names / keys, e.g.
+        f"_in_fold_idx_{i}_{j}"); otherwise an UNKNOWN string that cannot be compared (error messages are the usual case)"""
+        parts = []
+        for v in e.values:
+            if isinstance(v, ast.Constant):
+                parts.append(str(v.value))
+                continue
+            if isinstance(v, ast.FormattedValue) and v.format_spec is None and v.conversion in (-1, 115):
+                try:
+                    val = self.eval(v.value)
+                except Unsupported:
+                    return UnknownStr()
+                if isinstance(val, (int, str, float, bool)) or val is None:
+                    parts.append(str(val))
+                    continue
+            return UnknownStr()
+        return "".join(parts)
 
     def eval_Tuple(self, e):
         return self.B.build_seq(self, e.elts, "tuple")
